@@ -422,6 +422,7 @@ def gen_history(rng, thorough, decls, light=False):
     rng.shuffle(names)
     n_classes = rng.randint(1, 4) if light else rng.randint(2, 9 if not thorough else 12)
     key = [0]
+    added = []
 
     def forget(ln):
         dead = {ln}
@@ -452,8 +453,15 @@ def gen_history(rng, thorough, decls, light=False):
             elif r < 0.72:
                 yield {'op': 'isSub', 'k': some_class(rng, env, 0.93), 'sup': some_class(rng, env, 0.9)}
             elif r < 0.88:
-                key[0] += 1
-                yield {'op': 'addInst', 'cls': some_class(rng, env, 0.93), 'key': key[0]}
+                if added and rng.random() < 0.12:
+                    cn_, k_ = rng.choice(added)                # the same path again (any case): refused
+                    yield {'op': 'addInst', 'cls': rc(rng, cn_), 'key': k_}
+                else:
+                    key[0] += 1
+                    cn_ = some_class(rng, env, 0.93)
+                    out = yield {'op': 'addInst', 'cls': cn_, 'key': key[0]}
+                    if 'ok' in out:
+                        added.append((cn_, key[0]))
             else:
                 yield {'op': 'enumInsts', 'n': some_class(rng, env)}
 
@@ -1018,8 +1026,12 @@ def oracle(run, decls, ops, outs, final_names, final_insts, toklist, case):
                 sh.cache = {}
             elif known(op['n']) and out.get('exc') == 'CIMError':
                 run.violate({'kind': 'delete_of_existing_class_refused', 'code': out.get('code')}, case, out)
-        elif o == 'addInst' and ok:
-            sh.insts.append((op['cls'], op['key']))
+        elif o == 'addInst':
+            dup = any(c.lower() == op['cls'].lower() and k == op['key'] for c, k in sh.insts)
+            if ok == dup:
+                run.violate({'kind': 'instance_path_uniqueness_wrong', 'duplicate': dup}, case, out)
+            if ok:
+                sh.insts.append((op['cls'], op['key']))
         elif o == 'get':
             if ok != known(op['n']):
                 run.violate({'kind': 'getclass_existence_wrong', 'exists': known(op['n'])}, case, out)
@@ -1339,7 +1351,7 @@ def _thin(run, keep=25):
 
 def run(run):
     rng = run.rng
-    n = 12000 if run.thorough else 2000
+    n = 10000 if run.thorough else 1500
     run.rule = ('seeded random histories on one namespace: 14 qualifier declarations (flavors of 6 of them drawn from '
                 '{True,False,None}^2), 2..9 (thorough ..12) classes in forests of depth<=5 / fan-out<=4 created by CreateClass or '
                 'add_cimobjects in accepted and non-accepted orders, overriding / new / renamed-override properties and methods, '
